@@ -402,7 +402,11 @@ class TopLevelVisitor(ast.NodeVisitor):
             >>>     assert got == want
         """
         # lineno points to the last line of a string in CPython < 3.8
-        if hasattr(docnode, 'end_lineno'):
+        if hasattr(docnode, 'end_lineno') and PLAT_IMPL != 'PyPy':
+            # The node knows where the literal starts and ends. Counting the
+            # newlines of the value is wrong when it contains escapes.
+            return docnode.lineno, docnode.end_lineno
+        elif hasattr(docnode, 'end_lineno'):
             endpos = docnode.end_lineno - 1
         else:
             if PLAT_IMPL == 'PyPy':
